@@ -59,7 +59,7 @@ structure DC where
 deriving Repr
 
 /-- body of `for _, g := range r.ExpiredShardGroups(now)` -/
-def dcExpire (db rp : String) (now : Time) (s : DC) (g : ShardGroupInfo) : DC :=
+def dcExpire (db rp : String) (now : Int) (s : DC) (g : ShardGroupInfo) : DC :=
   if s.store.dsgFail.contains g.ID then
     { s with log := s.log ++ [Ev.dsg db rp g.ID false] }
   else
@@ -70,21 +70,21 @@ def dcExpire (db rp : String) (now : Time) (s : DC) (g : ShardGroupInfo) : DC :=
                log := s.log ++ [Ev.dsg db rp g.ID true] }
 
 /-- body of `for _, r := range d.RetentionPolicies` (on the snapshot `r`) -/
-def dcPolicy (db : String) (now : Time) (s : DC) (r : RetentionPolicyInfo) : DC :=
+def dcPolicy (db : String) (now : Int) (s : DC) (r : RetentionPolicyInfo) : DC :=
   let s := { s with del := ((deletedShardGroups r).flatMap (·.Shards.map (·.ID))).foldl mapPut s.del }
   (expiredShardGroups r now).foldl (dcExpire db r.Name now) s
 
 /-- first phase: the snapshot `dbs := s.MetaClient.Databases()` is walked, the live data updated -/
-def dcCollect (now : Time) (s : DC) : DC :=
+def dcCollect (now : Int) (s : DC) : DC :=
   s.data.Databases.foldl (fun s di => di.RetentionPolicies.foldl (dcPolicy di.Name now) s) s
 
 /-- `DropShardMetaRef(id, owners)` = `meta.Client.DropShard(id)` behind the failure switch -/
-def dcDropRef (now : Time) (phantom : Bool) (s : DC) (id : Nat) : DC :=
+def dcDropRef (now : Int) (phantom : Bool) (s : DC) (id : Nat) : DC :=
   if s.store.dropFail.contains id then { s with log := s.log ++ [Ev.dropRef id false phantom] }
   else { s with data := dropShard s.data id now, log := s.log ++ [Ev.dropRef id true phantom] }
 
 /-- body of `for _, id := range s.TSDBStore.ShardIDs()` -/
-def dcLocal (now : Time) (s : DC) (id : Nat) : DC :=
+def dcLocal (now : Int) (s : DC) (id : Nat) : DC :=
   if !s.del.contains id then s else
   let s := { s with del := s.del.erase id }
   if s.store.blockFail.contains id then
@@ -120,7 +120,7 @@ def sortNat (xs : List Nat) : List Nat :=
     ins acc) []
 
 /-- `Service.DeletionCheck` at wall-clock `now` -/
-def deletionCheck (now : Time) (data : Data) (store : Store) : DC :=
+def deletionCheck (now : Int) (data : Data) (store : Store) : DC :=
   let s : DC := { data := data, store := store, del := [], log := [] }
   let s := dcCollect now s
   let s := s.store.shards.foldl (dcLocal now) s
